@@ -549,6 +549,32 @@ fn widths_ops(rng: &mut Rng, bits: u32, n: usize) -> Vec<Op> {
     ops
 }
 
+/// compressed images whose entry count needs 3 bytes (65 536 .. 16 777 215 entries): too large for a trace
+/// event, so the comparison with the encoded entry list is made here and only its outcome is logged
+fn large_v4(out: &mut Shards, rng: &mut Rng, n: usize) {
+    out.next_run("theta-large-v4");
+    let seed = 9001u64;
+    let sh = refhash::seed_hash(seed);
+    let step = (MAX_THETA / 2) / n as u64;
+    let mut cur = 0u64;
+    let entries: Vec<u64> = (0..n).map(|_| { cur += 1 + rng.below(step); cur }).collect();
+    let theta = cur + 1 + rng.below(step);
+    let img = ref_v4(&entries, theta, sh);
+    let r = catch(std::panic::AssertUnwindSafe(|| CompactThetaSketch::deserialize_with_seed(&img, seed)));
+    let (ok, same, again, err) = match r {
+        Ok(Ok(c)) => {
+            let got: Vec<u64> = c.iter().collect();
+            (true, got == entries && c.theta64() == theta && c.is_ordered() && !c.is_empty(), c.serialize_compressed() == img, String::new())
+        }
+        Ok(Err(e)) => (false, false, false, format!("{e:?}")),
+        Err(p) => {
+            out.ev(json!({"op":"Panic","in":"deserialize-v4-large","key":p.split(": ").next().unwrap_or(""),"msg":p}));
+            return;
+        }
+    };
+    out.ev(json!({"op":"CLoadBig","n":n,"nbytes":img[4],"ok":ok,"same":same,"again":again,"err":err}));
+}
+
 pub fn record(args: &Args) {
     let seed = args.u64("seed", 1);
     let mut rng = Rng::new(seed ^ 0x7E7A);
@@ -611,6 +637,11 @@ pub fn record(args: &Args) {
             let ops = widths_ops(&mut rng, bits, n);
             run(&mut out, "theta-compact-widths", lgk, 3, 1.0, 9001, &ops);
         }
+    }
+    large_v4(&mut out, &mut rng, 70_000);
+    large_v4(&mut out, &mut rng, 65_536);
+    if thorough {
+        large_v4(&mut out, &mut rng, 1 << 20);
     }
     if let Some(path) = args.get("in") {
         replay_gen(&mut out, path);
